@@ -11,6 +11,33 @@ class Program:
         self.aliases = {}     # stable name -> go/ssa function key   (pkg.var.Field for closures stored in package-level literals)
         self.display = {}     # go/ssa function key -> stable name
         self._closure_aliases()
+        self.const_globals = self._const_globals()
+
+    def _const_globals(self):
+        """package-level variables that are initialised with a constant and never assigned outside the package
+        initialiser (e.g. `var eof = rune(0)`): effectively constants"""
+        stored = {}
+        inits = {}
+        for key, f in self.funcs.items():
+            isinit = key.endswith('.init') and key.count('.') == 1 or key.rsplit('.', 1)[-1] == 'init'
+            for blk in f['blocks']:
+                for x in blk['instrs']:
+                    if x['op'] == 'Store' and x['addr']['k'] == 'global':
+                        g = (x['addr']['pkg'], x['addr']['name'])
+                        if isinit and x['val']['k'] == 'const':
+                            inits.setdefault(g, []).append(x['val'])
+                        else:
+                            stored[g] = True
+                    elif x['op'] in ('Call', 'Defer', 'Go', 'MakeClosure'):
+                        # address of a global escaping as an argument: it may be written elsewhere
+                        for a in x.get('args', []) + x.get('bindings', []):
+                            if a and a.get('k') == 'global':
+                                stored[(a['pkg'], a['name'])] = True
+        out = {}
+        for g, vals in inits.items():
+            if g not in stored and len(vals) == 1:
+                out[g] = vals[0]
+        return out
 
     def _closure_aliases(self):
         """closures stored into fields of composite literals assigned to package-level variables
